@@ -452,7 +452,11 @@ def main(argv):
             shutil.rmtree(d)
     summ = dict(check='corr_restart', seed=seed, cases=ncases, **stats,
                 disagreements=len(dis), by_kind={k: sum(1 for x in dis if x['kind'] == k) for k in sorted({x['kind'] for x in dis})},
-                first=dis[:10], kept=(base if (dis or keep) else None))
+                first=dis[:10], kept=(base if (dis or keep) else None),
+                not_compared='VALUES of the force_<q>_<k> accumulator columns (persistent-flagged and written, but zeroed by '
+                             'Integrator*::isAboutToStart in every run); their columns are still part of the text comparison',
+                classified_findings={'boundary-loss': 'a particle whose written coordinate is >= the upper box bound is dropped by '
+                                     'ParticleCreatorFile::createParticles (findCell -> region_t::isInside is strict, run A keeps it via isInsideEps)'})
     if not dis and not keep:
         shutil.rmtree(base, ignore_errors=True)
     print(json.dumps(summ, indent=1, default=str))
